@@ -48,7 +48,7 @@ def rebuild_case(draw, tier, prepopulate=False, partial_decoys=False):
                 # 'all': every byte differs (C14's decoy); the partial kinds agree with the real file in some pieces
                 e["decoy_kind"] = draw(st.sampled_from(["all", "all", "all", "same-first-piece", "same-tail", "one-byte"])) if partial_decoys else "all"
             if prepopulate:
-                e["pre"] = draw(st.sampled_from(["none", "none", "correct", "wrong-full", "shorter", "shorter-wrong", "sparse-full", "dir-in-the-way"]))
+                e["pre"] = draw(st.sampled_from(["none", "none", "correct", "wrong-full", "shorter", "shorter-wrong", "sparse-full", "dir-in-the-way", "symlink-to-unrelated"]))
                 if e["decoy"] is not None:
                     # the intact copy may be missing altogether: only the decoy carries the name (C14 must hold then, too)
                     e["real_absent"] = draw(st.sampled_from([True] + [False] * 3))
